@@ -199,6 +199,25 @@ Section Generic.
     o_mul Op (o_mul Op (o_mul Op invv ctheta) ctheta) (g_pos_recipr (o_mul Op (o_one Op) disp)).
 End Generic.
 
+(* LikelihoodModelResults.Tcontrast with its options (one voxel):
+     store      - which of 't', 'effect', 'sd' are kept (the others are None)
+     dispersion - the caller's value, None -> self.dispersion   (vcov: `if dispersion is None: dispersion = self.dispersion`)
+   effect is computed when 't' or 'effect' is stored, sd when 't' or 'sd' is stored,
+   and BOTH with the same effective dispersion. *)
+Record tres (F : Type) := mkT { r_t : option F; r_effect : option F; r_sd : option F }.
+Arguments mkT {F}. Arguments r_t {F}. Arguments r_effect {F}. Arguments r_sd {F}.
+Definition eff_disp {F : Type} (caller : option F) (self : F) : F :=
+  match caller with Some d => d | None => self end.
+Definition g_Tcontrast {F : Type} (Op : ops F) (st_t st_e st_sd : bool)
+           (ctheta v : F) (disp_caller : option F) (disp_self : F) : tres F :=
+  let d := eff_disp disp_caller disp_self in
+  mkT (if st_t then Some (g_T Op ctheta v d) else None)
+      (if st_e then Some ctheta else None)
+      (if st_sd then Some (g_T_sd Op v d) else None).
+(* Fcontrast with the caller's dispersion (one row; invv = inverse of c cov c', computed or passed as invcov=) *)
+Definition g_Fcontrast1 {F : Type} (Op : ops F) (ctheta invv : F) (disp_caller : option F) (disp_self : F) : F :=
+  g_F1 Op ctheta invv (eff_disp disp_caller disp_self).
+
 (* ------------------------------------------------------------------ *)
 (* Contrast.__add__ / __rmul__ (one voxel): effect vector, variance matrix, dof *)
 Record contrast := mkC { c_eff : list Q; c_var : list (list Q); c_dof : Q }.
